@@ -100,7 +100,7 @@ type c07Open struct {
 }
 
 // open = NewStream + first use (write the nonce, read the echo)
-func (w *c07World) open(out *verifh.Out, reqs []int64, nonce int64, first byte) c07Open {
+func (w *c07World) open(out *verifh.Out, reqs []int64, nonce int64, first byte, allow bool) c07Open {
 	o := c07Open{res: 0, dp: -1, use: -1, h: -1, lp: -1, nonce: nonce}
 	pids := make([]protocol.ID, len(reqs))
 	for i, r := range reqs {
@@ -108,9 +108,20 @@ func (w *c07World) open(out *verifh.Out, reqs []int64, nonce int64, first byte) 
 	}
 	ctx, cancel := context.WithTimeout(context.Background(), 10*time.Second)
 	defer cancel()
+	if allow {
+		ctx = network.WithAllowLimitedConn(ctx, "c07")
+	} else if w.limited {
+		// nothing can produce a direct connection here: do not wait long for one
+		cancel()
+		ctx, cancel = context.WithTimeout(network.WithNoDial(context.Background(), "c07"), 80*time.Millisecond)
+		defer cancel()
+	}
 	s, err := w.d.NewStream(ctx, w.l.ID(), pids...)
 	if err != nil {
 		switch {
+		case w.limited && !allow:
+			o.res = 5
+			out.Cover("open.fail.limited_conn_not_allowed")
 		case errors.Is(err, msmux.ErrNoProtocols):
 			o.res = 3
 			out.Cover("open.fail.no_protocols")
@@ -224,7 +235,7 @@ func (r *c07Run) settle(dead map[int64]bool) {
 }
 
 // batch runs n opens concurrently (n = 1: a plain sequential open)
-func (r *c07Run) batch(reqs [][]int64, rnd *verifh.Rand) {
+func (r *c07Run) batch(reqs [][]int64, modes []int64, rnd *verifh.Rand) {
 	w := r.w
 	n := len(reqs)
 	obs := make([]c07Open, n)
@@ -242,7 +253,7 @@ func (r *c07Run) batch(reqs [][]int64, rnd *verifh.Rand) {
 		wg.Add(1)
 		go func(i int) {
 			defer wg.Done()
-			obs[i] = w.open(r.out, reqs[i], nonces[i], firsts[i])
+			obs[i] = w.open(r.out, reqs[i], nonces[i], firsts[i], modes[i]&1 == 1)
 		}(i)
 	}
 	wg.Wait()
@@ -261,8 +272,8 @@ func (r *c07Run) batch(reqs [][]int64, rnd *verifh.Rand) {
 	w.invs = nil
 	w.mu.Unlock()
 	r.line = append(r.line, 5, int64(n))
-	for _, q := range reqs {
-		r.line = append(r.line, int64(len(q)))
+	for i, q := range reqs {
+		r.line = append(r.line, modes[i], int64(len(q)))
 		r.line = append(r.line, q...)
 	}
 	var un [][2]int64
